@@ -46,13 +46,6 @@ pub(crate) mod verif_args {
         let args = ERASED.get_or_init(|| ErasedArgsSlice { args: VALUES.as_ptr().cast(), names: names.as_ptr(), len: 3, arg_type: TypeId::of::<u8>() });
         BenchArgsRunner { args, bench: record }
     }
-    static VALUES4: [u8; 4] = [10, 20, 30, 40];
-    static ERASED4: std::sync::OnceLock<ErasedArgsSlice> = std::sync::OnceLock::new();
-    /// the same over four values [10, 20, 30, 40]
-    pub fn runner4(names: &'static [&'static str; 4]) -> BenchArgsRunner {
-        let args = ERASED4.get_or_init(|| ErasedArgsSlice { args: VALUES4.as_ptr().cast(), names: names.as_ptr(), len: 4, arg_type: TypeId::of::<u8>() });
-        BenchArgsRunner { args, bench: record }
-    }
 }
 """
 
@@ -118,9 +111,10 @@ mod verif_entry {
     fn parallelism() -> NonZeroUsize { NonZeroUsize::new(unsafe { PARALLELISM }).unwrap() }
 
     macro_rules! entry_harness {
-        ($name:ident, $body:block) => {
+        ($name:ident, $body:block) => { entry_harness!($name, 5, $body); };
+        ($name:ident, $unwind:literal, $body:block) => {
             #[kani::proof]
-            #[kani::unwind(5)]
+            #[kani::unwind($unwind)]
             #[kani::solver(kissat)]
             #[kani::stub(std::hash::RandomState::new, zeroed_random_state)]
             #[kani::stub(alloc::fmt::format, no_format)]
@@ -276,29 +270,6 @@ mod verif_entry {
         if k == 2 { assert!(seen[1] == 10 * (j + 1), "[C13][C17] a label is measured with the argument it names (an unselected case is not run in its place)"); }
         kani::cover!(k == 2 && i == 2 && j == 0);
     });
-
-    // all four labels kept, the two inner ones possibly exchanged (as a sort by name leaves them): same length as the
-    // original list, same first and last label - and still every label is run with the argument it names
-    static mut NAMES4: [&'static str; 4] = ["", "", "", ""];
-    fn names4() -> &'static [&'static str; 4] { unsafe { &*std::ptr::addr_of!(NAMES4) } }
-    fn args_runner4() -> BenchArgsRunner { crate::benchmark::verif_args::runner4(names4()) }
-    static ARGS_ENTRY4: BenchEntry = BenchEntry {
-        meta: EntryMeta { display_name: "e", raw_name: "e", module_path: "m", location: EntryLocation { file: "f", line: 1, col: 1 }, bench_options: None },
-        bench: BenchEntryRunner::Args(args_runner4),
-    };
-    entry_harness!(arg_labels_reordered_all_kept, {
-        unsafe { NAMES4 = [&BUF[..1], &BUF[..2], &BUF[..4], &BUF[..8]]; crate::benchmark::verif_args::NSEEN = 0; HAS_ENTRY_OPTIONS = false; }
-        let swap: bool = kani::any();
-        let (a, b) = if swap { (2, 1) } else { (1, 2) };
-        let picked: [&&str; 4] = [&names4()[0], &names4()[a], &names4()[b], &names4()[3]];
-        let d = Divan::default();
-        run(&d, Action::Test, &ARGS_ENTRY4, Some(&picked[..]));
-        let (n, seen) = unsafe { (crate::benchmark::verif_args::NSEEN, crate::benchmark::verif_args::SEEN) };
-        assert!(n == 4, "[C13][C17] one run per remaining label");
-        assert!(seen[0] == 10 && seen[3] == 40 && seen[1] == 10 * (a + 1) && seen[2] == 10 * (b + 1),
-                "[C13][C17] a label is measured with the argument it names, whatever order the labels are shown in");
-        kani::cover!(swap); kani::cover!(!swap);
-    });
 }
 """
 
@@ -312,7 +283,6 @@ HARNESSES = [
     ("ignore_decision", "run_bench_entry: ignore_leaf vs run", "all 3 x 3 ignore/flag combinations"),
     ("list_never_invokes", "run_bench_entry: list action short-circuit", "all ignore/flag combinations, thread option set or not"),
     ("arg_label_to_value", "run_bench_entry: label -> index in the original names -> value", "3 arguments whose names alias one buffer, every ordered pair / single label"),
-    ("arg_labels_reordered_all_kept", "run_bench_entry: label -> index in the original names -> value when no label was filtered out and only the order changed", "4 arguments whose names alias one buffer, all kept, the inner two in either order"),
 ]
 
 
